@@ -608,8 +608,16 @@ func (w *Worker) parseIntSym(s Str, base, bits int, signed bool, fnName string) 
 	if len(digits) > 24 {
 		w.unsupported("parseIntSym: more than 24 symbolic digits")
 	}
-	// digit values
-	const W = 128
+	// digit values; the accumulator is just wide enough to hold base^len exactly
+	maxv := new(big.Int).Exp(big.NewInt(int64(base)), big.NewInt(int64(len(digits))), nil)
+	W := maxv.BitLen() + 1
+	if W < 8 {
+		W = 8
+	}
+	noOverflow := W <= bits-1
+	if !noOverflow && W < bits+1 {
+		W = bits + 1
+	}
 	val := tc.Const(W, 0)
 	var valid []*Term
 	for _, c := range digits {
@@ -618,7 +626,15 @@ func (w *Worker) parseIntSym(s Str, base, bits int, signed bool, fnName string) 
 		isLet := tc.And(tc.Cmp(OpUle, tc.Const(8, 'a'), lc), tc.Cmp(OpUle, lc, tc.Const(8, 'z')))
 		d := tc.Ite(isDig, tc.Bin(OpSub, c, tc.Const(8, '0')), tc.Ite(isLet, tc.Bin(OpAdd, tc.Bin(OpSub, lc, tc.Const(8, 'a')), tc.Const(8, 10)), tc.Const(8, 255)))
 		valid = append(valid, tc.Cmp(OpUlt, d, tc.Const(8, uint64(base))))
-		val = tc.Bin(OpAdd, tc.Bin(OpMul, val, tc.Const(W, uint64(base))), tc.Zext(d, W))
+		if base&(base-1) == 0 {
+			sh := 0
+			for 1<<uint(sh) < base {
+				sh++
+			}
+			val = tc.Extract(tc.Concat(val, tc.Extract(d, sh-1, 0)), W-1, 0)
+		} else {
+			val = tc.Bin(OpAdd, tc.Bin(OpMul, val, tc.Const(W, uint64(base))), tc.Zext(d, W))
+		}
 	}
 	if !w.decideBool(tc.And(valid...)) {
 		return Tuple{tc.Const(64, 0), errv("invalid syntax")}
@@ -631,22 +647,25 @@ func (w *Worker) parseIntSym(s Str, base, bits int, signed bool, fnName string) 
 		limit = new(big.Int).Lsh(big.NewInt(1), uint(bits))
 	}
 	// in range: val < limit (or val <= limit when negative)
-	inRange := tc.Cmp(OpUlt, val, tc.ConstBig(W, limit))
-	if signed {
-		inRange = tc.Or(inRange, tc.And(neg, tc.Eq(val, tc.ConstBig(W, limit))))
+	inRange := tc.True
+	if !noOverflow {
+		inRange = tc.Cmp(OpUlt, val, tc.ConstBig(W, limit))
+		if signed {
+			inRange = tc.Or(inRange, tc.And(neg, tc.Eq(val, tc.ConstBig(W, limit))))
+		}
 	}
 	if !w.decideBool(inRange) {
 		// out of range: max value returned with error
 		var mv *Term
 		if signed {
-			maxv := new(big.Int).Sub(limit, big.NewInt(1))
-			mv = tc.Ite(neg, tc.ConstBig(64, new(big.Int).Neg(limit)), tc.ConstBig(64, maxv))
+			mx := new(big.Int).Sub(limit, big.NewInt(1))
+			mv = tc.Ite(neg, tc.ConstBig(64, new(big.Int).Neg(limit)), tc.ConstBig(64, mx))
 		} else {
 			mv = tc.ConstBig(64, new(big.Int).Sub(limit, big.NewInt(1)))
 		}
 		return Tuple{mv, errv("value out of range")}
 	}
-	v64 := tc.Extract(val, 63, 0)
+	v64 := tc.Resize(val, 64, false)
 	if signed {
 		v64 = tc.Ite(neg, tc.Un(OpNeg, v64), v64)
 	}
